@@ -106,6 +106,7 @@ fn run_case(line: &str, scratch: &std::path::Path) -> String {
         let (b_tx, b_rx) = channel::unbounded::<TargetActorOutputMessage>();
         let (a_tx, a_rx) = channel::unbounded::<TargetActorOutputMessage>();
         let (term_tx, term_rx) = channel::bounded::<TerminationMessage>(1);
+        let b_probe = b_tx.clone();
         let target_actors = TargetActors::new(targets, b_tx, watch_option);
         let log: Arc<Mutex<Vec<String>>> = Arc::new(Mutex::new(Vec::new()));
         let log2 = log.clone();
@@ -196,7 +197,12 @@ fn run_case(line: &str, scratch: &std::path::Path) -> String {
         if let Ok(ta) = ta {
             let _ = async_std::future::timeout(Duration::from_secs(10), ta.terminate()).await;
         }
-        task::sleep(Duration::from_millis(5)).await;
+        // every actor has ended: wait until the relay has logged what they sent last
+        let t1 = Instant::now();
+        while !b_probe.is_empty() && t1.elapsed() < Duration::from_secs(5) {
+            task::sleep(Duration::from_millis(1)).await;
+        }
+        task::sleep(Duration::from_millis(20)).await;
         drop(relay);
         let o = log.lock().unwrap().join(";");
         // passed on and not left in the (now closed) channel = taken by the root loop
